@@ -67,25 +67,26 @@ def const_index(n, base):
     return tuple(out)
 
 
-def dim_chain(stmts, what):
+def dim_chain(stmts, what, var='dim', dims=(1, 2, 3)):
     """the bodies of ``if dim == 1: .. elif dim == 2: .. elif dim == 3: .. else: raise`` chains among stmts"""
     chains = []
+    pre = var + ' == '
     for s in stmts:
-        if isinstance(s, ast.If) and t2.src(s.test) == 'dim == 1':
+        if isinstance(s, ast.If) and t2.src(s.test) == pre + str(dims[0]):
             ch = {}
             node = s
             while True:
                 t = t2.src(node.test)
-                if not (t.startswith('dim == ') and t[7:].isdigit()):
+                if not (t.startswith(pre) and t[len(pre):].isdigit()):
                     raise TranslateError(f'{what}: test {t}')
-                ch[int(t[7:])] = node.body
+                ch[int(t[len(pre):])] = node.body
                 if len(node.orelse) == 1 and isinstance(node.orelse[0], ast.If):
                     node = node.orelse[0]
                     continue
                 if not (len(node.orelse) == 1 and isinstance(node.orelse[0], ast.Raise)):
                     raise TranslateError(f'{what}: the chain must end with raise')
                 break
-            if sorted(ch) != [1, 2, 3]:
+            if sorted(ch) != list(dims):
                 raise TranslateError(f'{what}: dimensions {sorted(ch)}')
             chains.append(ch)
     return chains
@@ -221,6 +222,55 @@ def translate_mapping():
     return out
 
 
+ISO = 'skfem/mapping/mapping_isoparametric.py'
+
+
+def translate_isoparametric():
+    """detDF / detDG of MappingIsoparametric in terms of the Jacobian entries J[i][j] / bndJ(i, j, ...)"""
+    tree = t2.parse(ISO)
+    out = []
+    f = t2.find_def(tree, 'detDF', 'MappingIsoparametric')
+    ch = t2.only(dim_chain(f.body, 'iso detDF', var='self.dim'), 'iso detDF chain')
+
+    def subJ(n):
+        # J[i][j]
+        if not (isinstance(n, ast.Subscript) and isinstance(n.value, ast.Subscript) and t2.src(n.value.value) == 'J'):
+            raise TranslateError('iso detDF: ' + t2.src(n))
+        i, j = n.value.slice, n.slice
+        for e in (i, j):
+            if not (isinstance(e, ast.Constant) and isinstance(e.value, int) and 0 <= e.value <= 2):
+                raise TranslateError('iso detDF index: ' + t2.src(n))
+        return f'a{i.value}{j.value}'
+    for d in (1, 2, 3):
+        st = t2.only(ch[d], f'iso detDF dim {d}')
+        if not (isinstance(st, ast.Assign) and t2.src(st.targets[0]) == 'detDF'):
+            raise TranslateError('iso detDF: ' + t2.src(st)[:80])
+        out.append(f'Definition iso_detDF{d} {{R : Type}} (O : ops R) ({entries_params("a", d, d)} : R) : R := {Ring(sub=subJ).tr(st.value)}.')
+    ret = [s for s in f.body if isinstance(s, ast.Return)]
+    if len(ret) != 1 or t2.src(ret[0].value) != 'detDF':
+        raise TranslateError('iso detDF: return')
+    f = t2.find_def(tree, 'detDG', 'MappingIsoparametric')
+    ch = t2.only(dim_chain(f.body, 'iso detDG', var='self.dim', dims=(2, 3)), 'iso detDG chain')
+
+    def callB(tr, n):
+        if not (t2.src(n.func) == 'self.bndJ' and len(n.args) == 4 and not n.keywords
+                and t2.src(n.args[2]) == 'X' and t2.src(n.args[3]) == 'find'):
+            raise TranslateError('iso detDG: ' + t2.src(n))
+        i, j = n.args[0], n.args[1]
+        for e in (i, j):
+            if not (isinstance(e, ast.Constant) and isinstance(e.value, int) and 0 <= e.value <= 2):
+                raise TranslateError('iso detDG index: ' + t2.src(n))
+        return f'b{i.value}{j.value}'
+    for d in (2, 3):
+        st = t2.only(ch[d], f'iso detDG dim {d}')
+        if not (isinstance(st, ast.Return) and isinstance(st.value, ast.Call) and t2.src(st.value.func) == 'np.sqrt'
+                and len(st.value.args) == 1):
+            raise TranslateError('iso detDG: ' + t2.src(st)[:80])
+        out.append(f'(* detDG = sqrt of: *)\nDefinition iso_detDG{d}_sq {{R : Type}} (O : ops R) ({entries_params("b", d, d - 1)} : R) : R := '
+                   f'{Ring(call=callB).tr(st.value.args[0])}.')
+    return out
+
+
 def translate_dx(path, cls, detfn, kw):
     """``self.dx = np.abs(self.mapping.<detfn>(self.X, <kw>=self.<kw>)) * np.broadcast_to(self.W, (self.nelems, self.W.shape[-1]))``"""
     tree = t2.parse(path)
@@ -265,6 +315,7 @@ def translate_all():
     lines = ['(* GENERATED by vlib/c02_t2.py from skfem/mapping/mapping_affine.py, assembly/basis/{cell,facet,abstract}_basis.py — do not edit *)',
              'From Coq Require Import Arith.', 'Require Import Base.C02_Ops.']
     lines += translate_mapping()
+    lines += translate_isoparametric()
     lines.append(translate_dx(CELL, 'CellBasis', 'detDF', 'tind'))
     lines.append(translate_dx(FACET, 'FacetBasis', 'detDG', 'find'))
     lines.append(translate_intorder())
